@@ -1,3 +1,4 @@
 /- Props/C16.lean — property C16: all theorems live in namespace CM.Props.C16, split over two files. -/
+import CircuitProofs.Props.C16Tie
 import CircuitProofs.Props.C16Seq
 import CircuitProofs.Props.C16Conc
